@@ -1251,12 +1251,17 @@ class BlockwiseRequest(BaseUnicastRequest, interfaces.Request):
 
         assembled_response = initial_response
         last_response = initial_response
+        # The size of the blocks asked for never grows, whatever the server sends
+        requested = request_to_repeat.opt.block2
+        max_exp = requested.size_exponent if requested is not None else 7
         while True:
             current_block2 = request_to_repeat._generate_next_block2_request(
                 assembled_response
             )
 
             current_block2 = current_block2.copy(remote=initial_response.remote)
+            current_block2.opt.block2 = current_block2.opt.block2.reduced_to(max_exp)
+            max_exp = current_block2.opt.block2.size_exponent
 
             blockrequest = protocol.request(current_block2, handle_blockwise=False)
             last_response = await blockrequest.response
